@@ -95,6 +95,8 @@ NODES = {
           [("3e8", "erg"), ("25", None)], ("40", None)),
     "t": ("str", None, S("abc"), None, [dict(k="fmt", ind=4, re="^[a-z]+$")], [(S("xyz"), None)], (S("qrs"), None)),
     "c": ("int", None, "5", "s", [dict(k="const", ind=4)], [], None),
+    "p": ("float", None, "2.5", None, [], [("3.5", None), ("4.5", None)], ("9.5", None)),
+    "u": ("float", [[4, 4]], ["10", "20", "30", "40"], "cm", [], [], None),
 }
 # the value "3e8" is decimal text readable by Fraction: 3e8 erg = 30 J
 
@@ -407,8 +409,119 @@ def _placed(fam, tier, tags, build):
         yield tags + ["source-place=" + sp, "host-place=" + hp], build(sp, hp)
 
 
+def _fresh(typ, shp, k=0):
+    """a new literal of the given shape (None = scalar)"""
+    def one(i):
+        if typ == "float":
+            return "%d.5" % (7 + i + k)
+        if typ == "int":
+            return str(7 + i + k)
+        if typ == "str":
+            return S("zz%d" % (i + k))
+        return (i + k) % 2 == 0
+    if not shp:
+        return one(0)
+    if len(shp) == 1:
+        return [one(i) for i in range(shp[0])]
+    return [[one(r * shp[1] + c) for c in range(shp[1])] for r in range(shp[0])]
+
+
+REUSE_SLICES = {
+    # single-axis slices only (slices over two axes whose first part is a range are a separate, older quirk)
+    "u": [(None, [[4, 4]]), ([[1, 3]], [[1, None]]), ([[2, None]], [[None, 3]]), ([[1, 3]], [[2, 2]]),
+          ([[3, 3]], None), ([[1, 1]], None), ([[None, 3]], [[3, 3]]), ([[1, 4]], [[1, 4]]), ([[0, 1]], [[1, 1]])],
+    "v": [([[1, None]], [[2, 2]]), ([[2, 2]], None), ([[1, 3]], [[1, None]])],
+    "m": [([[1, 1]], [[2, 2]]), ([[0, 1]], [[1, 1], [2, 2]]), ([[1, None]], [[1, None], [2, 2]])],
+    "w": [([[1, 1]], None), ([[1, None]], [[2, 2]]), ([[2, 2]], None), ([[1, 3]], [[1, None]])],
+}
+
+
+def fam_reuse_sliced_host(tier, src=None):
+    """a node DEFINED by a (single-axis) sliced injection is afterwards imported, modified, injected or sliced
+    again: it must behave like any node holding that value (the slice belongs to the injection, not to the node)"""
+    for n in ("u", "v", "m", "w"):
+        typ, dims, val, unit, props, mods, later = NODES[n]
+        hunits = [("none", None)] + ([("convertible", "mm")] if unit else [])
+        for (sl, hd), (utag, hu) in itertools.product(REUSE_SLICES[n], hunits):
+            pre = tree([n, "i"])
+            host = [GRP("hg"), D("h", typ, REF("g." + n, sl, src), hu, hd, ind=2)]
+            res = G.apply_slice(G.leaf(val, typ), sl)
+            shp = G.shape(res) if isinstance(res, list) else None
+            new, new2 = _fresh(typ, shp), _fresh(typ, shp, 3)
+            base = ["node=" + n, "type=" + typ, "statement=injection-definition", "host-unit=" + utag,
+                    "host-reused"] + (["slice=" + G.render_slice(sl)] if sl else []) + (["array"] if hd else [])
+            yield base + ["after=nothing"], pre, host, []
+            yield base + ["after=host-imported-children"], pre, host, [IMP("hg.*", "cp")]
+            yield base + ["after=host-imported-single"], pre, host, [GRP("box"), IMP("hg.h", None, None, 2)]
+            yield (base + ["after=host-imported-twice"], pre, host,
+                   [IMP("hg.*", "cp"), IMP("cp.*", "cp2"), IMP("hg.h", "one")])
+            yield (base + ["after=import-then-injection"], pre, host,
+                   [IMP("hg.*", "cp"), D("k", typ, REF("cp.h"), None, hd)])
+            yield (base + ["after=import-modified"], pre, host, [IMP("hg.*", "cp"), M("cp.h", new)])
+            yield base + ["after=host-modified"], pre, host, [M("hg.h", new)]
+            yield base + ["after=host-modified-twice"], pre, host, [M("hg.h", new), M("hg.h", new2)]
+            yield (base + ["after=host-modified-then-injected"], pre, host,
+                   [M("hg.h", new), D("k", typ, REF("hg.h"), None, hd)])
+            yield (base + ["after=host-modified-then-imported"], pre, host, [M("hg.h", new), IMP("hg.*", "cp")])
+            yield base + ["after=host-injected"], pre, host, [D("k", typ, REF("hg.h"), None, hd)]
+            if shp and len(shp) == 1 and shp[0] >= 2:
+                yield (base + ["after=host-sliced-again"], pre, host,
+                       [D("k", typ, REF("hg.h", [[1, 1]]), None, None), D("k2", typ, REF("hg.h", [[0, 1]]), None,
+                                                                         [[1, 1]])])
+            if hu:
+                yield base + ["after=host-modified-converted"], pre, host, [M("hg.h", new, "cm")]
+
+
+def fam_inject_none(tier, src=None):
+    """the referenced node was emptied by `= none` (or defined as none) before the injection: the host receives the
+    current value, i.e. none (or the value assigned after the emptying)"""
+    for n in ("f", "i", "s", "b", "p"):
+        typ, dims, val, unit, props, mods, later = NODES[n]
+        comp = "i" if n != "i" else "f"
+        seqs = [("emptied", tree([n, comp]), [M("g." + n, G.NONE)]),
+                ("modified-then-emptied", tree([n, comp]), [M("g." + n, mods[0][0], mods[0][1]), M("g." + n, G.NONE)]),
+                ("emptied-then-refilled", tree([n, comp]), [M("g." + n, G.NONE), M("g." + n, mods[0][0], mods[0][1])]),
+                ("emptied-twice", tree([n, comp]), [M("g." + n, G.NONE), M("g." + n, mods[1][0], mods[1][1]),
+                                                    M("g." + n, G.NONE)])]
+        if unit is None:
+            seqs.append(("defined-none", [GRP("g"), D(n, typ, G.NONE, None, ind=2), D(comp, *_plain_def(comp))], []))
+        if unit == "m":
+            hunits = [("none", None), ("same", "m"), ("convertible", "cm"), ("other-dimension", "s")]
+        elif typ in ("int", "float"):
+            hunits = [("none", None), ("host-only", "m")]
+        else:
+            hunits = [("none", None)]
+        okval = NODES[n][6][0]
+        for (qtag, tr, pm) in seqs:
+            pre = tr + pm
+            base = ["node=" + n, "type=" + typ, "source-emptied=" + qtag]
+            for utag, hu in hunits:
+                b = base + ["statement=injection-definition", "host-unit=" + utag]
+                host = [D("h", typ, REF("g." + n, None, src), hu)]
+                yield b + ["after=nothing"], pre, host, []
+                yield b + ["after=host-modified"], pre, host, [M("h", okval)]
+                yield b + ["after=source-modified"], pre, host, [M("g." + n, later[0], later[1])]
+                yield b + ["after=second-injection"], pre, host, [D("h2", typ, REF("h"))]
+            # injection in a modification
+            hdefs = [("plain", D("h", typ, okval, unit)), ("declared", D("h", typ, None, unit))]
+            if unit == "m":
+                hdefs += [("convertible", D("h", typ, okval, "cm"))]
+            for (dtag, hdef), hu in itertools.product(hdefs, [None] + (["km"] if unit == "m" else [])):
+                b = base + ["statement=injection-modification", "host-def=" + dtag,
+                            "mod-unit=" + ("adopted" if hu is None else "stated-" + hu)]
+                yield b + ["after=nothing"], pre + [hdef], [M("h", REF("g." + n, None, src), hu)], []
+                yield (b + ["after=host-modified"], pre + [hdef], [M("h", REF("g." + n, None, src), hu)],
+                       [M("h", okval)])
+
+
+def _plain_def(n):
+    typ, dims, val, unit, props, mods, later = NODES[n]
+    return typ, val, unit, dims, 2
+
+
 LOCAL_FAMILIES = dict(inject_def=fam_inject_def, inject_mod=fam_inject_mod, inject_bad=fam_inject_bad,
-                      imports=fam_import, import_empty=fam_import_empty)
+                      imports=fam_import, import_empty=fam_import_empty, reuse_sliced_host=fam_reuse_sliced_host,
+                      inject_none=fam_inject_none)
 
 
 def remote_cases(fam, tier, api):
@@ -548,7 +661,7 @@ def chain_alphabet():
     """programs of the chaining alphabet: name -> statements"""
     A = {}
     A["define"] = [GRP("g"), D("f", "float", "1.5", "m", ind=2), D("i", "int", "4", ind=2),
-                   D("s", "str", S("Will Smith"), ind=2)]
+                   D("s", "str", S("Will Smith"), ind=2), D("u", "float", ["10", "20", "30", "40"], "cm", [[4, 4]], 2)]
     A["define-constrained"] = [D("o", "int", "2"), dict(k="opt", ind=2, val="1", unit=None),
                                dict(k="opt", ind=2, val="2", unit=None), dict(k="opt", ind=2, val="3", unit=None),
                                dict(k="tags", ind=2, tags=["t1"]),
@@ -556,7 +669,9 @@ def chain_alphabet():
                                dict(k="cond", ind=2, expr=["cmp", "<", ["self"], ["num", "50", "J"]])]
     A["modify"] = [M("g.f", "250", "cm"), M("g.i", "6")]
     A["modify-constrained"] = [M("o", "3"), M("c", "3e8", "erg")]
-    A["inject"] = [D("h", "float", REF("g.f"), "cm"), D("t", "str", REF("g.s", [[5, None]]))]
+    A["inject"] = [D("h", "float", REF("g.f"), "cm"), D("t", "str", REF("g.s", [[5, None]])),
+                   GRP("hg"), D("part", "float", REF("g.u", [[1, 3]]), None, [[1, None]], 2)]
+    A["import-sliced"] = [IMP("hg.*", "cp"), M("hg.part", ["7.5", "8.5"]), M("g.i", G.NONE), D("e1", "int", REF("g.i"))]
     A["inject-modify"] = [M("g.i", REF("o")), M("g.f", REF("c"), "mm")]
     A["import"] = [IMP("g.*", "bag")]
     A["unit"] = [dict(k="unit", name="len", val="2", unit="m"), D("w", "float", "3", "[len]")]
@@ -568,7 +683,7 @@ def chain_alphabet():
 
 
 CHAIN_QUICK = ["define", "define-constrained", "modify", "modify-constrained", "inject", "inject-modify", "import",
-               "unit", "use-unit", "fail-option", "fail-late", "fail-inject"]
+               "import-sliced", "unit", "use-unit", "fail-option", "fail-late", "fail-inject"]
 
 
 def run_history(hist, sh=None):
